@@ -32,7 +32,7 @@ import c15_defs  # noqa: E402
 
 PROP = "C15"
 DRIVER = "drv-c15"
-PROOF_MODULES = ["TetlProofs.C15.Props"]
+PROOF_MODULES = ["TetlProofs.C15.Props", "TetlProofs.C15.PropsGen"]
 HARNESS = "harness/c15.cpp"
 SOURCES = ["include/etl/_type_traits", "include/etl/_concepts", "include/etl/_limits/numeric_limits.hpp",
            "include/etl/_ratio", "include/etl/_meta", "include/etl/_numeric/gcd.hpp", "include/etl/_math/abs.hpp",
@@ -194,7 +194,7 @@ CLASS_ZOO = ["Cls", "Uni", "EU", "EUF", "ES", "ESC", "ESS", "EUS", "EL", "EULL",
              "AbstractProtDtor", "PrivateDtor", "Base", "Derived", "DerivedPriv", "DerivedVirt", "PolyFinal", "NonStdLayout",
              "Padded", "WithRef", "WithConst", "ConvToInt", "ConvToIntThrow", "ExplicitConv", "FromCls", "Callable",
              "CallableRef", "EqComparable", "Assignable", "CopyAssignConstOnly", "Swappable", "UnionNonTrivial", "BitField",
-             "Lambdaish"]
+             "Lambdaish", "CopyNonConstNothrow", "MoveCtorOnlyNothrowAssignThrows"]
 ARITH = ["bool", "char", "schar", "uchar", "wchar", "char8", "char16", "char32", "short", "ushort", "int", "uint", "long",
          "ulong", "llong", "ullong", "float", "double", "ldouble"]
 CPP_OF = {"wchar": "wchar_t", "char8": "char8_t", "char16": "char16_t", "char32": "char32_t", "nullptr": "nullptr_t"}
